@@ -42,7 +42,7 @@ ASSUMPTIONS = [
 
 DIMS = [
     "clock_start", "clock_step", "hash_seed", "aged_process", "cold_process", "cwd", "in_location", "out_location",
-    "spelling", "enum", "umask", "env", "lookup_via_env", "input_meta",
+    "spelling", "enum", "umask", "env", "lookup_via_env", "input_meta", "tpl_location",
 ]  # fmt: skip
 T0 = 1750000000.0
 
@@ -85,11 +85,13 @@ def _gen_opts(r: Rng, ds: dsdlgen.DsdlSet, lang: typing.Optional[str]) -> dict:
         o["pp_trim"] = True
     if r.chance(1, 6):
         o["pp_max_empty"] = r.choice([0, 1, 2])
-    if r.chance(1, 5):
+    if r.chance(1, 4):
         names = [n for n in sorted(usertpl.SETS) if usertpl.usable_for(lang, n)]
+        if lang in ("c", "cpp", "py"):
+            names += ["builtin_copy", "builtin_copy"]  # the user's directory is a copy of the built-in templates
         if names:
             o["templates"] = r.choice(names)
-            o["ns_types"] = r.chance(1, 2)
+            o["ns_types"] = r.chance(1, 2) if o["templates"] != "builtin_copy" else (lang == "py" and r.chance(1, 2))
     if r.chance(1, 6) and lang in usertpl.SUPPORT_NAME:
         o["support_templates"] = "override"
     if r.chance(1, 8) and lang in ("c", "cpp"):
@@ -124,6 +126,8 @@ def _perturb(r: Rng, dims: typing.List[str], worker_hash_seed: int) -> dict:
             w[d] = r.choice(["cwd/deeper", ".", "in", "other cwd"])
         elif d == "in_location":
             w[d] = r.choice(["moved/in", "a/b/c/d/inputs", "in put-é", "x"])
+        elif d == "tpl_location":
+            w[d] = r.choice(["moved/templates", "t p l-é", "a/b/tpl"])
         elif d == "out_location":
             w[d] = r.choice(["build/out", "o u t-é", "cwd/out", "out2"])
         elif d == "spelling":
@@ -257,11 +261,12 @@ def run_case(case: dict, ctx: dict) -> dict:
             in_rel=delta.get("in_location", "in"),
             out_rel=delta.get("out_location", "out"),
             cwd_rel=delta.get("cwd", "cwd"),
+            tpl_rel=delta.get("tpl_location", "tpl"),
         )
         dsdlgen.materialize_files(files, roots, world.in_dir)
         o = real_opts(opts)
         if o.get("templates"):
-            usertpl.plant(world.tpl_dir, o["templates"], usertpl.SETS[o["templates"]])
+            usertpl.plant(world.tpl_dir, o["templates"], usertpl.builtin_copy(o["lang"]) if o["templates"] == "builtin_copy" else usertpl.SETS[o["templates"]])
         if o.get("support_templates"):
             usertpl.plant(world.tpl_dir, o["support_templates"], usertpl.SUPPORT_SETS[opts["support_templates"]](o["lang"]))
         sp = delta.get("spelling", ["abs", "abs"])
@@ -291,6 +296,19 @@ def run_case(case: dict, ctx: dict) -> dict:
             # another generator run (other language, other output directory) earlier in the same interpreter
             other = {"lang": "py" if o["lang"] != "py" else "c", "root": o["root"], "lookups": opts.get("lookups", []), "out_abs": os.path.join(sandbox, "prelude-out")}
             plan["prelude"] = [world.argv(other), world.argv(dict(o, out_abs=os.path.join(sandbox, "prelude-out2")))]
+            variant = dsdlgen.same_layout_variant(files)
+            if variant is not None:
+                # ... and a run of the same language over an EDITED copy of the inputs (a dependency moved to another
+                # type of identical layout): nothing of it may survive into the measured run
+                vin = os.path.join(sandbox, "prelude-in")
+                dsdlgen.materialize_files(variant, roots, vin)
+                saved = world.in_dir
+                world.in_dir = vin
+                try:
+                    plan["prelude"].insert(0, world.argv(dict(o, out_abs=os.path.join(sandbox, "prelude-out3"))))
+                finally:
+                    world.in_dir = saved
+                bump("probes", "prelude_over_edited_inputs")
         inv = world.invocation(o, **plan)
         if delta.get("hash_seed") is not None or delta.get("cold_process"):
             hs = delta.get("hash_seed")
